@@ -9,6 +9,7 @@ CRLF, exactly entity bytes a..=b; then CRLF "--B--" CRLF.
 import HttpServeModel.Lemmas.ServeLemmas
 import HttpServeModel.Lemmas.Layout
 import HttpServeModel.Lemmas.EndToEnd
+import HttpServeModel.Lemmas.ServeCalls
 
 namespace HS
 
@@ -93,5 +94,16 @@ theorem C06_end_to_end (c : Content) (es : List RangeElem) (e : Ent) (now : Nat)
                 specLayout c e.len (specEntityHeaders e.headers) (satisfiable e.len es) ∧
               PollOut.end_ ∈ outs (body.run n) ∧ ∀ o ∈ outs (body.run n), o.isErr = false)) :=
   multipart_end_to_end c es e now hne hwf hfit hlen h2 hest
+
+/-- A multipart body is sent only for at least two satisfiable ranges — a single range is never
+wrapped in multipart/byteranges (RFC 7233 section 4.1) — only with status 206, only when the
+ranges' estimated total (80 bytes of framing per part plus the data) is below the entity's
+length, and its parts are exactly the ranges the Range header resolves to, in request order. -/
+theorem C06_multipart_only_for_two_or_more (q : Req) (e : Ent) (now : Nat) (r : Resp)
+    (phs : List Bytes) (rs : List (Nat × Nat)) (total : Nat)
+    (h : serve q e now = .ok r) (hp : r.plan = .multipart phs rs total) :
+    2 ≤ rs.length ∧ ServeLemmas.small rs e.len = true ∧ r.status = 206 ∧
+    parseRange (if (ifRangeGate e.etag q.ifRange).1 then q.range else none) e.len = .ok (.sat rs) :=
+  multipart_only_for_two_or_more q e now r phs rs total h hp
 
 end HS
